@@ -58,6 +58,15 @@ def run_batch(batch):
         df = pl.DataFrame({"c": texts}, schema={"c": pl.Utf8})
         body = rtf.RTFBody(text_convert=[[bool(it["conv"])] for it in items], text_justification="l")
         doc = rtf.RTFDocument(df=df, rtf_body=body, rtf_page=rtf.RTFPage(nrow=len(items) + 10), rtf_title=None, rtf_column_header=[])
+    elif layout.get("twin"):
+        # two columns holding the SAME text in every row (items 2r and 2r+1 are the same input), text_convert per column
+        # [on, off] or [off, on]: what one cell's treatment produced must not be reused for its twin
+        pat = layout["twin"]
+        rows = len(items) // 2
+        texts = ["%04d|" % r + concretise(items[2 * r]["inp"], items[2 * r].get("kcmd")) for r in range(rows)]
+        df = pl.DataFrame({"c0": texts, "c1": list(texts)}, schema={"c0": pl.Utf8, "c1": pl.Utf8})
+        body = rtf.RTFBody(text_convert=[list(map(bool, pat))], text_justification="l")
+        doc = rtf.RTFDocument(df=df, rtf_body=body, rtf_page=rtf.RTFPage(nrow=rows + 10), rtf_title=None, rtf_column_header=[])
     else:
         # a five-column frame with one grouping column (removed from the display) and text_convert given as a
         # pattern over the ORIGINAL columns that is narrower than the frame (recycled): layout = {by, gpos, pat}
@@ -93,14 +102,15 @@ def run_batch(batch):
         return out
     d = parse(text)
     cells = {}
+    twin = bool(layout and layout.get("twin"))
     for b in d.all_blocks():
         if b.kind != "row":
             continue
-        for cell in b.cells:
+        for ci, cell in enumerate(b.cells):
             evs = cell.events
             head = "".join(e[1] for e in evs[:5] if e[0] == "c")
             if len(head) == 5 and head[4] == "|" and head[:4].isdigit():
-                cells[int(head[:4])] = norm_events(evs[5:])
+                cells[(2 * int(head[:4]) + ci) if twin else int(head[:4])] = norm_events(evs[5:])
     for k, it in enumerate(items):
         rec = {"id": it["id"], "inp": it["inp"], "conv": it["conv"], "k": kctx(it.get("kcmd")), "obs": cells.get(k)}
         if rec["obs"] is None:
